@@ -34,6 +34,8 @@ pub enum MEdit {
     /// pool variants (not faults): a value replaced, every name changed with ids kept,
     /// every id changed (consistently) with names kept
     SetValue { ptr: String, value: Value },
+    /// insert (or replace) a member of the object at `ptr`
+    SetKey { ptr: String, key: String, value: Value },
     ScaleNumber { ptr: String, factor: f64 },
     RenameAllNames,
     RemapAllIds,
@@ -61,6 +63,7 @@ impl MEdit {
             MEdit::SetMeta { .. } => "edit.set_meta",
             MEdit::PlaceWindow { .. } => "edit.place_window",
             MEdit::SetValue { .. } | MEdit::ScaleNumber { .. } => "variant.value",
+            MEdit::SetKey { .. } => "model.key_added",
             MEdit::RenameAllNames => "variant.names",
             MEdit::RemapAllIds => "variant.ids",
         }
@@ -396,6 +399,14 @@ pub fn apply(m: &mut Value, e: &MEdit, serial: u64) -> bool {
         MEdit::SetValue { ptr, value } => match m.pointer_mut(ptr) {
             Some(v) => {
                 *v = value.clone();
+                true
+            }
+            None => false,
+        },
+        MEdit::SetKey { ptr, key, value } => match m.pointer_mut(ptr).and_then(|o| o.as_object_mut()) {
+            Some(o) => {
+                let v = if value.as_str() == Some("<fresh>") { json!(fresh_id(serial.wrapping_mul(104729).wrapping_add(7))) } else { value.clone() };
+                o.insert(key.clone(), v);
                 true
             }
             None => false,
